@@ -243,6 +243,8 @@ func runC11(c *eng.Ctx) {
 	ruleCursorKeyInjective(c)
 	c.Rule("R11.8", "K5")
 	ruleCursorScanCoversAcknowledgedTail(c)
+	c.Rule("R11.1", "K1")
+	ruleFailedSetCursorLeavesNoStaleCache(c)
 
 }
 
